@@ -459,7 +459,7 @@ func genFaultCase(r *rand.Rand, cfg Cfg) Case {
 			// the same cursor (the fault has cleared) and must then give the normal result
 			// (Min / Max / Ceil place a cursor relative to where it stands: only on a fresh cursor)
 			place := pick(r, []string{"cmin 7", "cmax 7", fmt.Sprintf("cceil 7 %d", k)})
-			ops = append(ops, "cur 0 7", pick(r, []string{"faultall load " + place, place}))
+			ops = append(ops, "cur 0 7", pick(r, []string{"faultall load " + place, "faultall cmp " + place, place}))
 			for j := 0; j < 2+r.Intn(6); j++ {
 				nav := pick(r, []string{"cfwd 7", "cbwd 7"})
 				if r.Intn(3) == 0 {
